@@ -1,5 +1,135 @@
-"""C43 placeholder"""
+"""C43 Exact vector search is the literal ORDER BY ... LIMIT — structural clauses."""
+from qe import *
+import k9
+import guards
+
+CLAIMS = ("R1 TableProvider::scan_knn (the approximate index) is called only from VectorSearchExec::try_index and only past the `vector_search_mode != Indexed => Ok(None)` refusal, and ExecutionConfig::default() selects Exact unless the QE_VECTOR_SEARCH override parses; "
+          "R2 the VectorSearch lowering builds its exact fallback from a literal Limit{skip: node.skip, fetch: Some(node.k)} over Sort{order_by: [node.sort_key]} over node.input, hands exactly that plan to VectorSearchExec as fallback, and every operator the Limit arm can return declares one output partition (so execute(0) drains it); "
+          "R3 VectorSearchExec::execute reaches the fallback on every path on which try_index yields None, and propagates try_index errors.")
+NOT_DECIDED = "the optimizer rule's shape matcher (which ORDER BY expressions are recognised as distances); numeric equality of distances."
+
+VS = "physical::operators::vector_search::VectorSearchExec"
+PL = "physical::planner::PhysicalPlanner::create_physical_plan_inner"
+TRAIT = "physical::plan::PhysicalOperator"
+
+
+def _arm(F):
+    f = F.fn(PL)
+    ms = find_match(f, "planner::logical_plan::LogicalPlan", min_arms=10)
+    if len(ms) != 1:
+        raise Broken(f"create_physical_plan_inner: {len(ms)} matches on LogicalPlan with >=10 arms")
+    return f, ms[0]
+
+
 def fallback_single_partition(F):
-    return (False, "C43.R2 not built yet")
+    """premise for C07.R2's table entry"""
+    f, m = _arm(F)
+    vs = arm_for(m, "LogicalPlan::VectorSearch")
+    lim = arm_for(m, "LogicalPlan::Limit")
+    if len(vs) != 1 or len(lim) != 1:
+        return (False, "VectorSearch/Limit arm not found")
+    sp = vs[0]["span"]
+    # (1) literal plan
+    lits = {rv[1]: (i, rv) for i, j, dst, rv, line in stmts_in_lines(f, sp) if rv[0] == "agg" and rv[1] in ("adt:planner::logical_plan::LimitNode", "adt:planner::logical_plan::SortNode")}
+    if len(lits) != 2:
+        return (False, f"fallback is not built from literal LimitNode/SortNode ({sorted(lits)})")
+    li = dict(zip(lits["adt:planner::logical_plan::LimitNode"][1][3], lits["adt:planner::logical_plan::LimitNode"][1][2]))
+    so = dict(zip(lits["adt:planner::logical_plan::SortNode"][1][3], lits["adt:planner::logical_plan::SortNode"][1][2]))
+    e_skip, e_fetch = k9.kexpr(f, li["skip"]), k9.kexpr(f, li["fetch"])
+    if not e_skip.endswith(".skip") or "VectorSearchNode" not in str(place_fields(op_place(li["skip"]) or "0") or "") and not e_skip.endswith(".skip"):
+        return (False, f"LimitNode.skip is {e_skip}")
+    if not (e_fetch.startswith("std::option::Option::Some{") and e_fetch.rstrip("}").endswith(".k")):
+        return (False, f"LimitNode.fetch is {e_fetch}")
+    ob = k9.vec_literal_elems(f, so["order_by"])
+    if ob is None or len(ob) != 1 or ".sort_key" not in ob[0]:
+        return (False, f"SortNode.order_by is {ob}")
+    if ".input" not in k9.kexpr(f, so["input"]):
+        return (False, "SortNode.input is not node.input")
+    # (2) the lowered plan of that LimitNode is argument 0 of VectorSearchExec::new
+    news = [c for c in calls_in_lines(f, sp) if c.name == VS + "::new"]
+    rec = [c for c in calls_in_lines(f, sp) if c.name == PL]
+    if len(news) != 1 or len(rec) != 1:
+        return (False, f"VectorSearch arm: {len(news)} VectorSearchExec::new, {len(rec)} recursive lowerings")
+    if not derives_from(f, [news[0].args[0]], lambda k, x: (x is rec[0]) if k == "call" else None):
+        return (False, "fallback argument is not the lowered Limit(Sort(input)) plan")
+    if "planner::logical_plan::LogicalPlan::Limit{" not in k9.kexpr(f, rec[0].args[1]):
+        return (False, f"the recursive lowering is not applied to the Limit plan: {k9.kexpr(f, rec[0].args[1])[:80]}")
+    # (3) every operator the Limit arm can return declares one partition
+    lsp = lim[0]["span"]
+    ops = set()
+    for i, j, dst, rv, line in stmts_in_lines(f, lsp):
+        if rv[0] == "cast" and rv[4].startswith("std::sync::Arc<dyn " + TRAIT) and rv[3].startswith("std::sync::Arc<") and not rv[3].startswith("std::sync::Arc<dyn "):
+            ops.add(rv[3][len("std::sync::Arc<"):-1])
+    if not ops:
+        return (False, "no operator constructions found in the Limit arm")
+    # every value the arm returns must be a freshly constructed concrete operator (Arc<Concrete> unsized to Arc<dyn>);
+    # a bare pass-through of the child (`Ok(input)`) would forward a multi-partition plan
+    for i, j, dst, rv, line in stmts_in_lines(f, lsp):
+        if dst == "0" and rv[0] == "agg" and rv[1] == "adt:std::result::Result::Ok":
+            op = rv[2][0]
+            concrete = False
+            for _ in range(8):
+                o = origin(f, op)
+                if o[0] == "rv" and o[1][0] == "cast":
+                    if o[1][3].startswith("std::sync::Arc<") and not o[1][3].startswith("std::sync::Arc<dyn "):
+                        concrete = True
+                        break
+                    op = o[1][2]
+                    continue
+                break
+            if not concrete:
+                return (False, "the Limit arm can return a plan that is not a freshly built single-partition operator (e.g. its child unchanged)")
+    import c07
+    for ty in sorted(ops):
+        ims = [im for im in F.impls_of(TRAIT) if im["self_ty"] == ty]
+        if len(ims) != 1:
+            return (False, f"operator type {ty} has {len(ims)} impls")
+        mp = dict(ims[0]["methods"]).get("output_partitions")
+        if mp is not None and not c07.const_one(F, mp):
+            return (False, f"{ty}::output_partitions is not the constant 1")
+    return (True, f"fallback = lowered Limit{{skip,Some(k)}}(Sort[sort_key](input)); Limit arm returns one of {sorted(o.rsplit('::',1)[-1] for o in ops)}, each declaring 1 partition")
+
+
 def run(F, R):
-    pass
+    R.rule("C43.R1", "K1/K3", "scan_knn only from try_index, dominated by the mode != Indexed refusal; default mode Exact")
+    R.rule("C43.R2", "K4/K7", "fallback plan is the literal Limit(Sort(input)) with node.skip/node.k/node.sort_key; Limit arm's operators declare 1 partition")
+    R.rule("C43.R3", "K3", "execute: fallback reached whenever try_index is None; errors propagated")
+    cs = F.callers_of("physical::operators::scan::TableProvider::scan_knn")
+    R.floor("C43.R1", "scan_knn call sites", len(cs), 1)
+    for c in cs:
+        g = c.fn
+        inside = g.path == VS + "::try_index"
+        gs = guards.guards_of(g, c.bb, require_err=False)
+        ok = any(".vector_search_mode" in cond and "Indexed" in cond and ((cond.startswith("ne(") or cond.startswith("Ne(") or "::ne(" in cond) and val is False or ("::eq(" in cond or cond.startswith("Eq(")) and val is True) for sb, cond, val in gs)
+        R.check(inside and ok, "C43.R1", f"scan_knn@{g.path}", "the approximate index can be consulted without the user having opted in (mode == Indexed)", g.loc(c.bb), dict(guards=[(cnd, str(v)) for s, cnd, v in gs][:6]))
+    d = F.fn("<execution::memory::ExecutionConfig as std::default::Default>::default")
+    fam = F.family(d.path)
+    exact = False
+    for g in fam:
+        for i, j, dst, rv, line in g.stmts():
+            pass
+        for c in g.calls():
+            if c.name.rsplit("::", 1)[-1] == "unwrap_or" and "VectorSearchMode" in c.self_ty + "".join(c.argtys):
+                o = origin(g, c.args[1])
+                exact = o[0] == "rv" and o[1][0] == "agg" and o[1][1].endswith("VectorSearchMode::Exact")
+    R.check(exact, "C43.R1", "default-mode-Exact", "ExecutionConfig::default() does not fall back to VectorSearchMode::Exact", d.loc(), dict())
+    ok, why = fallback_single_partition(F)
+    R.check(ok, "C43.R2", "fallback-is-literal-limit-sort", why, F.fn(PL).loc(), dict(premise=why))
+    ex = F.fn("<" + VS + " as " + TRAIT + ">::execute::{closure#0}")
+    ti = [c for c in ex.calls() if c.name == VS + "::try_index"]
+    fb = [c for c in ex.calls() if c.callee == TRAIT + "::execute"]
+    R.floor("C43.R3", "try_index / fallback.execute calls", len(ti) + len(fb), 2)
+    if ti and fb:
+        tags = result_consumers(ex, ti[0])
+        R.check("try" in tags, "C43.R3", "try_index-error-propagated", f"try_index error not propagated ({sorted(tags)})", ex.loc(ti[0].bb), dict(consumers=sorted(tags)))
+        # None edge of the Option reaches the fallback call and cannot return without it
+        reached = False
+        for sb in range(ex.n):
+            si = ex.switch_info(sb)
+            if si and si[0] == "enum" and si[1][1] == "std::option::Option" and ex.dominates(ti[0].bb, sb):
+                t = si[2].get("None", si[3])
+                if fb[0].bb in ex.reachable(t) and not ex.can_return_from(t, avoid=frozenset([fb[0].bb])):
+                    reached = True
+        R.check(reached, "C43.R3", "None->fallback", "when the index declines, execute can return without running the exact fallback", ex.loc(fb[0].bb), dict())
+        e = k9.kexpr(ex, fb[0].args[0])
+        R.check(".fallback" in e, "C43.R3", "fallback-receiver", f"execute(0) receiver is {e}", ex.loc(fb[0].bb), nontrivial=False)
